@@ -48,6 +48,20 @@ import (
 
 const maxWalkDepth = 10000
 
+// maxChunkSize is the upper bound of the size of a chunk described by an (untrusted) TOC.
+// A chunk is always held in memory as a whole; the default chunk size is 4MiB.
+const maxChunkSize = 1 << 30
+
+// validateChunk checks the chunk information taken from the (untrusted) TOC for the chunk
+// that was looked up for "offset". It guarantees that the chunk has a sane, positive size
+// and that it ends after "offset" so that loops over chunks always make progress.
+func validateChunk(offset, chunkOffset, chunkSize int64) error {
+	if chunkOffset < 0 || chunkSize <= 0 || chunkSize > maxChunkSize || chunkOffset+chunkSize <= offset {
+		return fmt.Errorf("invalid chunk (offset:%d,size:%d) for the file offset %d", chunkOffset, chunkSize, offset)
+	}
+	return nil
+}
+
 type Reader interface {
 	OpenFile(id uint32) (io.ReaderAt, error)
 	Metadata() metadata.Reader
@@ -146,13 +160,13 @@ func (vr *VerifiableReader) Cache(opts ...CacheOption) (err error) {
 	eg, egCtx := errgroup.WithContext(context.Background())
 	eg.Go(func() error {
 		return vr.cacheWithReader(egCtx,
-			0, eg, semaphore.NewWeighted(int64(runtime.GOMAXPROCS(0))),
+			0, map[uint32]struct{}{rootID: {}}, eg, semaphore.NewWeighted(int64(runtime.GOMAXPROCS(0))),
 			rootID, r, filter, cacheOpts.cacheOpts...)
 	})
 	return eg.Wait()
 }
 
-func (vr *VerifiableReader) cacheWithReader(ctx context.Context, currentDepth int, eg *errgroup.Group, sem *semaphore.Weighted, dirID uint32, r metadata.Reader, filter func(int64) bool, opts ...cache.Option) (rErr error) {
+func (vr *VerifiableReader) cacheWithReader(ctx context.Context, currentDepth int, visitedDirs map[uint32]struct{}, eg *errgroup.Group, sem *semaphore.Weighted, dirID uint32, r metadata.Reader, filter func(int64) bool, opts ...cache.Option) (rErr error) {
 	if currentDepth > maxWalkDepth {
 		return fmt.Errorf("tree is too deep (depth:%d)", currentDepth)
 	}
@@ -172,7 +186,14 @@ func (vr *VerifiableReader) cacheWithReader(ctx context.Context, currentDepth in
 				return true
 			}
 
-			if err := vr.cacheWithReader(ctx, currentDepth+1, eg, sem, id, r, filter, opts...); err != nil {
+			// A directory can be reachable through several names (and even be its own
+			// ancestor) when the TOC contains a hardlink to a directory. Walk it once.
+			if _, ok := visitedDirs[id]; ok {
+				return true
+			}
+			visitedDirs[id] = struct{}{}
+
+			if err := vr.cacheWithReader(ctx, currentDepth+1, visitedDirs, eg, sem, id, r, filter, opts...); err != nil {
 				rErr = err
 				return false
 			}
@@ -209,7 +230,11 @@ func (vr *VerifiableReader) cacheWithReader(ctx context.Context, currentDepth in
 			if !ok {
 				break
 			}
-			nr += chunkSize
+			if err := validateChunk(nr, chunkOffset, chunkSize); err != nil {
+				rErr = fmt.Errorf("failed to cache %q: %w", name, err)
+				return false
+			}
+			nr = chunkOffset + chunkSize
 
 			if err := sem.Acquire(ctx, 1); err != nil {
 				rErr = err
@@ -244,6 +269,10 @@ func (vr *VerifiableReader) readAndCache(id uint32, fr io.Reader, chunkOffset, c
 	if r, err := gr.cache.Get(cacheID); err == nil {
 		r.Close()
 		return nil
+	}
+
+	if chunkSize < 0 || chunkSize > maxChunkSize {
+		return fmt.Errorf("invalid chunk size %d", chunkSize)
 	}
 
 	// missed cache, needs to fetch and add it to the cache
@@ -374,6 +403,10 @@ func (gr *reader) OpenFile(id uint32) (io.ReaderAt, error) {
 			return nil
 		}
 
+		if chunkSize < 0 || chunkSize > maxChunkSize {
+			return fmt.Errorf("invalid chunk size %d", chunkSize)
+		}
+
 		// Read and cache
 		b := gr.bufPool.Get().(*bytes.Buffer)
 		b.Reset()
@@ -441,12 +474,22 @@ func (sf *file) ReadAt(p []byte, offset int64) (int, error) {
 		if !ok {
 			break
 		}
+		if err := validateChunk(offset+int64(nr), chunkOffset, chunkSize); err != nil {
+			return 0, err
+		}
+		if chunkOffset > offset+int64(nr) {
+			// The chunk doesn't contain the requested offset (hole in the chunk list).
+			return 0, fmt.Errorf("no chunk contains the file offset %d (nearest chunk starts at %d)", offset+int64(nr), chunkOffset)
+		}
 		var (
 			id           = genID(sf.id, chunkOffset, chunkSize)
 			lowerDiscard = positive(offset - chunkOffset)
 			upperDiscard = positive(chunkOffset + chunkSize - (offset + int64(len(p))))
 			expectedSize = chunkSize - upperDiscard - lowerDiscard
 		)
+		if expectedSize <= 0 || int64(nr)+expectedSize > int64(len(p)) {
+			return 0, fmt.Errorf("invalid chunk (offset:%d,size:%d) for reading [%d,%d)", chunkOffset, chunkSize, offset, offset+int64(len(p)))
+		}
 
 		// Check if the content exists in the cache
 		if r, err := sf.gr.cache.Get(id); err == nil {
@@ -522,6 +565,13 @@ func (sf *file) GetPassthroughFd(mergeBufferSize int64, mergeWorkerCount int) (u
 		if !ok {
 			break
 		}
+		if err := validateChunk(offset, chunkOffset, chunkSize); err != nil {
+			return 0, nil, err
+		}
+		if chunkOffset != offset {
+			// chunks must be contiguous; otherwise the merged file would have a wrong layout
+			return 0, nil, fmt.Errorf("non-contiguous chunk (offset:%d,size:%d); expected offset %d", chunkOffset, chunkSize, offset)
+		}
 		// Check if any chunk size exceeds merge buffer size to avoid bounds out of range
 		if chunkSize > mergeBufferSize {
 			hasLargeChunk = true
@@ -583,6 +633,10 @@ func (sf *file) prefetchEntireFileSequential(entireCacheID string) error {
 		chunkOffset, chunkSize, chunkDigestStr, ok := sf.fr.ChunkEntryForOffset(offset)
 		if !ok {
 			break
+		}
+		if err := validateChunk(offset, chunkOffset, chunkSize); err != nil {
+			w.Abort()
+			return err
 		}
 
 		id := genID(sf.id, chunkOffset, chunkSize)
@@ -745,6 +799,9 @@ func (sf *file) processBatchChunks(args *batchWorkerArgs) error {
 
 	for chunkIdx := args.workerID; chunkIdx < len(args.chunks); chunkIdx += args.workerCount {
 		chunk := args.chunks[chunkIdx]
+		if chunk.bufferPos < 0 || chunk.size < 0 || chunk.bufferPos+chunk.size > int64(len(args.buffer)) {
+			return fmt.Errorf("chunk (offset:%d,size:%d) doesn't fit in the merge buffer", chunk.offset, chunk.size)
+		}
 		bufStart := args.buffer[chunk.bufferPos : chunk.bufferPos+chunk.size]
 
 		id := genID(sf.id, chunk.offset, chunk.size)
